@@ -4845,7 +4845,12 @@ class NormDim(Array):
         #
         #     Take(func, NormDim(func.shape[-1], Range(0) + func.shape[-1]))
         if all(n._intbounds[0] > 0 for n in self.index.shape):
-            assert -self.length._intbounds[1] <= self.index._intbounds[0] and self.index._intbounds[1] <= self.length._intbounds[1] - 1
+            # NOTE: an unbounded index, e.g. an integer argument, is checked
+            # at runtime only.
+            lower_index, upper_index = self.index._intbounds
+            upper_length = self.length._intbounds[1]
+            assert lower_index == float('-inf') or -upper_length <= lower_index
+            assert upper_index == float('inf') or upper_index <= upper_length - 1
 
     @property
     def dependencies(self):
